@@ -2,6 +2,7 @@
 
 UNITS = {
     'V-DEC': {'engine': 'verus', 'file': 'v_dec.unit'},
+    'V-ECI': {'engine': 'verus', 'file': 'v_eci.unit'},
 }
 
 STANDING_ASSUMPTIONS = [
